@@ -79,6 +79,11 @@ def walk_cases(rng, tier):
                 cases.append(Case("reg_walk", [opt(L), entries_coq(u, es)],
                                   [("reg_walk %s %d %s" % ("-" if L is None else L, len(es), entries_tokens(u, es)), "nl")],
                                   "directed-grid"))
+                if sz >= 2 and (L in (None, 1, 2) or rng.random() < 0.3):
+                    # the same walk by a client that hands the last pair back with its assets in the other order
+                    cases.append(Case("reg_walk", [opt(L), entries_coq(u, es)],
+                                      [("reg_walk_sw %s %d %s" % ("-" if L is None else L, len(es), entries_tokens(u, es)), "nl")],
+                                      "directed-grid", "cursor spelled with its two assets swapped"))
             # single pages with every cursor (both orders) for a few limits
             for ci in ([None] + list(range(len(es)))) if sz <= 12 or tier == "thorough" else [None, 0, sz // 2, sz - 1]:
                 for L in rng.sample(limits, 2):
